@@ -68,7 +68,12 @@ def inject(i1: int, j1: int, i2: int, j2: int) -> bool:
     """
     n1 = _name(pick(i1, 0, 5), pick(j1, 0, 5), CASE["n1"])
     n2 = _name(pick(i2, 0, 5), pick(j2, 0, 5), CASE["n2"])
-    cfg = CFG(header_map=CASE["header_map"], workers=1, errorlog="-")
+    kw = {}
+    if CASE.get("trusted"):
+        # every peer is a trusted forwarder and two names of the alphabet, spelled with '_', are configured scheme headers:
+        # being named in the configuration must not let the '_' spelling past the drop / refuse policy (it would alias 'A-')
+        kw = dict(forwarded_allow_ips=["*"], secure_scheme_headers={"A_": "https", "_B": "on"})
+    cfg = CFG(header_map=CASE["header_map"], workers=1, errorlog="-", **kw)
     r = mk_req(cfg=cfg)
     data = n1.encode("latin-1") + b":a\r\n" + n2.encode("latin-1") + b":b"
     try:
@@ -390,12 +395,15 @@ _PEER_ALLOW = [(pi, ai) for pi in range(5) for ai in range(4)]
 OBLIGATIONS = [
     Ob("C08.inject", "inject",
        cases={"quick": [{"header_map": hm, "n1": a, "n2": b} for hm in ("drop", "refuse") for a, b in ((1, 1), (1, 2), (2, 2))] +
-                       [{"header_map": "drop", "n1": 2, "n2": 2, "alpha": 2}],
+                       [{"header_map": "drop", "n1": 2, "n2": 2, "alpha": 2}] +
+                       [{"header_map": hm, "n1": 2, "n2": 2, "trusted": True} for hm in ("drop", "refuse")],
               "thorough": [{"header_map": hm, "n1": a, "n2": b} for hm in ("drop", "refuse") for a, b in ((1, 1), (1, 2), (2, 1), (2, 2))] +
-                          [{"header_map": hm, "n1": 2, "n2": 2, "alpha": 2} for hm in ("drop", "refuse")]},
+                          [{"header_map": hm, "n1": 2, "n2": 2, "alpha": 2} for hm in ("drop", "refuse")] +
+                          [{"header_map": hm, "n1": 2, "n2": 2, "trusted": True} for hm in ("drop", "refuse")]},
        timeout={"quick": 900, "thorough": 3000},
        bound="two header names of 1..2 characters chosen from {a, A, -, _, b, 1} (and, 2 characters each, from {a, -, _, ., !, ~}) "
-             "through the real parse_headers + wsgi.create"),
+             "through the real parse_headers + wsgi.create; also with every peer trusted and the names 'A_' and '_B' configured as "
+             "secure_scheme_headers"),
     Ob("C08.inject_sym", "inject_sym",
        cases={"quick": [{"header_map": hm, "n1": 1, "n2": 1} for hm in ("drop", "refuse")] + [{"header_map": "drop", "n1": 2, "n2": 1}],
               "thorough": [{"header_map": hm, "n1": a, "n2": b} for hm in ("drop", "refuse") for a, b in ((1, 1), (2, 1), (2, 2))]},
